@@ -253,6 +253,83 @@ def stubs(display_fmt_of):
         rec(0, [], [])
         return alts
 
+    def _chars_of(I, st, v):
+        """characters of a Txt / Slice / constant whose length is concrete on this path (None otherwise)"""
+        v = models.deref(I, st, v)
+        if isinstance(v, Slice):
+            n = z3.simplify(v.s.n)
+            j = v.j if v.j is not None else (n.as_long() if z3.is_bv_value(n) else None)
+            return None if j is None else v.s.ch[v.i:j]
+        t = _txt(I, st, v)
+        n = z3.simplify(t.n)
+        return t.ch[:n.as_long()] if z3.is_bv_value(n) else None
+
+    def _fix_length(I, st, v, then):
+        """a model that needs a concrete length: fork on the symbolic length first"""
+        t = _txt(I, st, v)
+        if z3.is_bv_value(z3.simplify(t.n)):
+            return then(Txt(t.ch[:z3.simplify(t.n).as_long()], z3.simplify(t.n), t.tag))
+        return [(t.n == k, then(Txt(t.ch[:k], z3.BitVecVal(k, 64), t.tag))) for k in range(len(t.ch) + 1)]
+
+    def m_split_str(I, st, a):
+        pat = _chars_of(I, st, a[1])
+        if pat is None or not pat:
+            raise Inconclusive("K-sqlstr: split with a pattern of unknown length")
+        return _fix_length(I, st, a[0], lambda t: SAgg("splitstr", "", {0: t, 1: pat}))
+
+    def _pred_on(I, st, clo, arg):
+        """closure(arg) -> z3 Bool (the closure may branch)"""
+        import numlex
+        clo = models.deref(I, st, clo)
+        body = I.closure_body(clo.name)
+        if body is None:
+            raise Inconclusive(f"K-sqlstr: closure body of {clo.name}")
+
+        def build(st2):
+            st2.heap.append(clo)
+            first = I.funcs[body].args[0][1]
+            return [SRef(-1, ("cell", 0)) if first.startswith("&") else clo, arg]
+        t, _ = numlex.eval_pred(I.funcs, I.stub_patterns, body, build)
+        return t
+
+    def m_split_all_any(which):
+        def f(I, st, a):
+            sp = models.deref(I, st, a[0])
+            if not (isinstance(sp, SAgg) and sp.kind == "splitstr"):
+                raise Inconclusive(f"K-sqlstr: {which} over {sp}")
+            t, pat = sp.f[0], sp.f[1]
+            n, m = len(t.ch), len(pat)
+            alts = []
+
+            def rec(i, start, pieces, conds):
+                # scanning left to right; a match of the pattern ends the current piece
+                if i + m > n:
+                    ps = pieces + [(start, n)]
+                    preds = [_pred_on(I, st, a[1], Slice(t, x, y)) for x, y in ps]
+                    val = z3.And(*preds) if which == "all" else z3.Or(*preds)
+                    alts.append((z3.And(*conds) if conds else z3.BoolVal(True), SBool(val)))
+                    return
+                hit = z3.And(*[t.ch[i + k] == pat[k] for k in range(m)])
+                rec(i + m, i + m, pieces + [(start, i)], conds + [hit])
+                rec(i + 1, start, pieces, conds + [z3.Not(hit)])
+            rec(0, 0, [], [])
+            return alts
+        return f
+
+    def m_contains_char(I, st, a):
+        chs = _chars_of(I, st, a[0])
+        pat = models.deref(I, st, a[1])
+        if chs is None:
+            t = _txt(I, st, a[0])
+            return SBool(z3.Or(*[z3.And(_inb(t, i), t.ch[i] == pat.t) for i in range(len(t.ch))]) if t.ch else z3.BoolVal(False))
+        return SBool(z3.Or(*[c == pat.t for c in chs]) if chs else z3.BoolVal(False))
+
+    def m_is_empty(I, st, a):
+        chs = _chars_of(I, st, a[0])
+        if chs is None:
+            return SBool(_txt(I, st, a[0]).n == 0)
+        return SBool(z3.BoolVal(len(chs) == 0))
+
     def m_char_to_string(I, st, a):
         c = models.deref(I, st, a[0])
         return Txt([c.t], z3.BitVecVal(1, 64), "char")
@@ -276,6 +353,8 @@ def stubs(display_fmt_of):
         "__index_incl__": m_index_incl, "__index_from__": m_index_from, "__index_range__": m_index_range, "__index_to__": m_index_to,
         "__write_str__": m_write_str, "__write_char__": m_write_char, "__new_display__": m_new_display, "__args_new__": m_args_new,
         "__write_fmt__": m_write_fmt, "__into__": m_into, "__replace_char__": m_replace_char,
+        "__split_str__": m_split_str, "__split_all__": m_split_all_any("all"), "__split_any__": m_split_all_any("any"),
+        "__contains_char__": m_contains_char, "__is_empty__": m_is_empty,
     }
 
 
@@ -296,6 +375,11 @@ PATTERNS = [
     (r"^(core::fmt::|std::fmt::)?Arguments::<'_>::new$", "__args_new__"),
     (r"^<(sqlparser::ast::)?(ast::value::)?Value as (std::convert::|core::convert::)?Into<(sqlparser::ast::)?(ast::value::)?ValueWithSpan>>::into$", "__into__"),
     (r"^(core|std|alloc)::str::<impl str>::replace$", "__replace_char__"),
+    (r"^core::str::<impl str>::split$", "__split_str__"),
+    (r"^<(std|core)::str::Split<'_, &str> as Iterator>::all$", "__split_all__"),
+    (r"^<(std|core)::str::Split<'_, &str> as Iterator>::any$", "__split_any__"),
+    (r"^core::str::<impl str>::contains$", "__contains_char__"),
+    (r"^(core::str::<impl str>|(std::string::|alloc::string::)?String)::is_empty$", "__is_empty__"),
 ]
 
 
@@ -511,45 +595,47 @@ def check_sqlstr(R, drv, tier):
             if v != "sat":
                 continue
             cps = [model.eval(text.ch[i], model_completion=True).as_long() for i in range(n)]
-            if e.kind == "return":
-                # only quotes and backslashes steer the code; other characters are shown as letters
-                txt = "".join(chr(c) if c in (39, 92) else "abcdefghij"[i] for i, c in enumerate(cps))
-            else:
-                txt = "".join(chr(c) for c in cps)
-            if (variant, txt) in seen_models:
-                continue
-            seen_models.add((variant, txt))
-            lit = prql_literal(txt)
-            prql = f"from t\nselect {{x = {lit}}}\n"
-            r = drv.compile(prql, "sql.sqlite")
-            if r.get("panic"):
-                nviol += 1
-                R.violation({"engine": "mirsym", "kernel": "K-sqlstr", "kind": "panic"},
-                            f"K-sqlstr: the string literal {txt!r} makes the compiler panic: {r['panic'][:120]}", {"prql": prql, "text": txt})
-                continue
-            if not r.get("ok") or not r.get("sql"):
-                R.engine_error(f"K-sqlstr: replay program does not compile: {prql!r}: {str(r)[:200]}")
-                continue
-            sql = r["sql"]
-            got, err = None, None
-            try:
-                con = sqlite3.connect(":memory:")
-                con.execute("create table t(a)")
-                con.execute("insert into t values (1)")
-                rows = con.execute(sql).fetchall()
-                got = rows
-            except Exception as ex:
-                err = str(ex)
-            if err is not None or got != [(txt,)]:
-                nviol += 1
-                only_q = set(txt) <= {"'"} | set("abcdefghij")
-                R.violation({"engine": "mirsym", "kernel": "K-sqlstr", "kind": "string_value", "has_backslash": "\\" in txt,
-                             "adjacent_quotes": "''" in txt, "sqlite_error": err is not None},
-                            f"K-sqlstr: the string literal {txt!r} is emitted as {sql.strip()[:80]!r}; SQLite " +
-                            (f"rejects the statement ({err})" if err else f"returns {got!r}") + f", expected the value {txt!r}",
-                            {"prql": prql, "sql": sql, "text": txt, "sqlite": err or repr(got)})
-            else:
-                R.cov.setdefault("unobservable_models", []).append(["K-sqlstr", txt, sql.strip()[:80]])
+            exact = "".join(chr(c) for c in cps)
+            # only quotes and backslashes steer the code; other characters are shown as letters first, the exact model is the fallback
+            cands = [exact] if e.kind != "return" else ["".join(chr(c) if c in (39, 92) else "abcdefghij"[i] for i, c in enumerate(cps)), exact]
+            reproduced = False
+            for txt in cands:
+                if (variant, txt) in seen_models:
+                    reproduced = True
+                    break
+                lit = prql_literal(txt)
+                prql = f"from t\nselect {{x = {lit}}}\n"
+                r = drv.compile(prql, "sql.sqlite")
+                if r.get("panic"):
+                    nviol += 1
+                    seen_models.add((variant, txt))
+                    reproduced = True
+                    R.violation({"engine": "mirsym", "kernel": "K-sqlstr", "kind": "panic"},
+                                f"K-sqlstr: the string literal {txt!r} makes the compiler panic: {r['panic'][:120]}", {"prql": prql, "text": txt})
+                    break
+                if not r.get("ok") or not r.get("sql"):
+                    continue
+                sql = r["sql"]
+                got, err = None, None
+                try:
+                    con = sqlite3.connect(":memory:")
+                    con.execute("create table t(a)")
+                    con.execute("insert into t values (1)")
+                    got = con.execute(sql).fetchall()
+                except Exception as ex:
+                    err = str(ex)
+                if err is not None or got != [(txt,)]:
+                    nviol += 1
+                    seen_models.add((variant, txt))
+                    reproduced = True
+                    R.violation({"engine": "mirsym", "kernel": "K-sqlstr", "kind": "string_value", "has_backslash": "\\" in txt,
+                                 "adjacent_quotes": "''" in txt, "sqlite_error": err is not None},
+                                f"K-sqlstr: the string literal {txt!r} is emitted as {sql.strip()[:80]!r}; SQLite " +
+                                (f"rejects the statement ({err})" if err else f"returns {got!r}") + f", expected the value {txt!r}",
+                                {"prql": prql, "sql": sql, "text": txt, "sqlite": err or repr(got)})
+                    break
+            if not reproduced:
+                R.engine_error(f"ENCODER-MISMATCH K-sqlstr: the model text {exact!r} ({e.kind} path) does not reproduce through prqlc::compile + SQLite")
     R.sample({"kernel": "K-sqlstr", "exits": len(exits2), "queries": nq, "property": f"for every string of <= {L} characters (every code point) the text written for a "
               "string literal is exactly one '...' token of a doubled-quote-only SQL lexer and denotes that string; no panic exit reachable", "wall_s": round(time.time() - t0, 2)})
     R.cov.setdefault("bounds", {})["K-sqlstr"] = (f"strings of at most {L} characters, every code point, symbolic length; translate_literal (String, RawString) from the prqlc MIR, "
@@ -709,7 +795,7 @@ def check_sqlident(R, drv, tier):
                             (f"rejects the statement ({err})" if err else f"returns {got!r}") + ", expected the column's value 7 under that name",
                             {"prql": prql, "sql": sql, "text": name, "sqlite": err or repr(got), "kind": "ident"})
             else:
-                R.cov.setdefault("unobservable_models", []).append(["K-sqlident", name, sql.strip()[:80]])
+                R.engine_error(f"ENCODER-MISMATCH K-sqlident: the model name {name!r} does not reproduce through prqlc::compile + SQLite ({sql.strip()[:80]})")
     R.sample({"kernel": "K-sqlident", "exits": len(exits2), "queries": nq, "property": f"for every name of <= {L} characters that is written quoted (any regex / keyword verdict, both "
               "quoting styles, quote character \" or `), the text written is one quoted-identifier token (doubled quote = the only escape) denoting exactly that name", "wall_s": round(time.time() - t0, 2)})
     R.cov.setdefault("bounds", {})["K-sqlident"] = (f"names of at most {L} characters, every code point, symbolic length; translate_ident_part from the prqlc MIR, Ident::fmt / "
